@@ -1,13 +1,29 @@
 """Independent reference encoders for property C14 (one module per processor family)."""
 import importlib
+import os
 
 MODULES = ["mos65", "i8080", "z80", "i4004", "pic16c84", "avr", "msp430"]
+# further table modules, one name per line, are listed in vf/isa/EXTRA.txt once they are finished and reviewed;
+# development aid (never set by registered commands): VERIF_ISA_EXTRA=mod1,mod2 adds modules under construction
+_extra = os.path.join(os.path.dirname(os.path.abspath(__file__)), "EXTRA.txt")
+
+
+def module_names():
+    names = list(MODULES)
+    if os.path.exists(_extra):
+        names += [l.strip() for l in open(_extra) if l.strip() and not l.startswith("#")]
+    names += [m.strip() for m in (os.environ.get("VERIF_ISA_EXTRA") or "").split(",") if m.strip()]
+    out = []
+    for n in names:
+        if n not in out:
+            out.append(n)
+    return out
 
 
 def load():
     """{isa name: Isa} of every table module that exists"""
     out = {}
-    for m in MODULES:
+    for m in module_names():
         try:
             mod = importlib.import_module("vf.isa." + m)
         except ModuleNotFoundError as e:
